@@ -457,7 +457,7 @@ def _libfuzzer_class(rep, texts_by_class, seed):
 
     seeds = [b"\x08" + t.encode("utf-8") for t in texts_by_class["corpus"] if len(t) < 400]
     try:
-        crashes, stats = fuzzing.run("fuzz_feel", seeds, 300, rep.workdir, max_len=600, seed=seed, dictionary=KEYWORDS)
+        crashes, stats = fuzzing.run("fuzz_feel", seeds, fuzzing.SECONDS, rep.workdir, max_len=600, seed=seed, dictionary=KEYWORDS)
     except runner.Inconclusive as ex:
         print("NOTE property=C05 libFuzzer slot skipped: %s" % str(ex)[:300])
         rep.extra["libfuzzer"] = "unavailable: " + str(ex)[:300]
